@@ -114,8 +114,9 @@ def check_array(case, ctx):
 def preagg_strategy(tier):
     @st.composite
     def s(draw):
-        spec = draw(gen.dataset(max_inputs=2, clim=False, flavor=draw(st.sampled_from(["det", "det", "ens"])), core_max=4, extra_max=1,
-                                allow_drop=False, ordered_dims=True, max_members=3, allow_all_missing=False, boundary_heavy=False))
+        # dimensions in any storage order: the window is defined by coordinate value (l-h, l]
+        spec = draw(gen.dataset(max_inputs=2, clim=False, flavor=draw(st.sampled_from(["det", "det", "ens"])), core_max=4, extra_max=2,
+                                allow_drop=False, ordered_dims=draw(st.booleans()), max_members=3, allow_all_missing=False, boundary_heavy=False))
         tx = draw(st.sampled_from(["leadtime", "leadtime", "time"]))
         if tx == "leadtime":
             grid = sorted(spec["leadtimes"])
@@ -127,7 +128,12 @@ def preagg_strategy(tier):
         cands = sorted(set(int(math.ceil(x)) for x in gaps + [g + 1 for g in gaps] + [span + 1, 1, 2, 24, 25] if x >= 1))
         h = draw(st.sampled_from(cands))
         agg = draw(st.sampled_from(["mean", "mean", "sum", "max", "min", "median", "range", "count", "change", "std", "0.5"]))
-        return {"spec": spec, "h": h, "tx": tx, "agg": agg, "axes": draw(st.lists(st.sampled_from(["no", "leadtime", "time", "location"]), min_size=1, max_size=2, unique=True))}
+        # a selection along the aggregated axis (-o / -t): the window still covers the whole series stored in the file
+        sel = None
+        if draw(st.sampled_from([False, True])):
+            sel = [x for x in grid if draw(st.booleans())] or grid[-1:]
+        return {"spec": spec, "h": h, "tx": tx, "agg": agg, "select": sel,
+                "axes": draw(st.lists(st.sampled_from(["no", "leadtime", "time", "location"]), min_size=1, max_size=2, unique=True))}
     return s()
 
 
@@ -153,7 +159,11 @@ def check_preagg(case, ctx):
     from .. import mat
     spec, h, tx, agg = case["spec"], case["h"], case["tx"], case["agg"]
     spec_agg = model.preaggregate_spec(spec, h, tx, agg)
-    ds = model.DS(spec_agg)
+    opts = {}
+    if case.get("select"):
+        opts = {("leadtimes" if tx == "leadtime" else "times"): list(case["select"])}
+        ctx.label("selection-on-the-aggregated-axis")
+    ds = model.DS(spec_agg, opts)
     if ds.empty:
         return
     ctx.label("Tx=" + tx)
@@ -164,7 +174,7 @@ def check_preagg(case, ctx):
         ctx.sample({"h": h, "Tx": tx, "Tagg": agg, "leadtimes": [[spec["leadtimes"][i] for i in d["li"]] for d in spec["inputs"]],
                     "times": [[spec["times"][i] for i in d["ti"]] for d in spec["inputs"]], "fcst0": spec["inputs"][0]["fcst"]})
     ins, clim = mat.mem_inputs(spec)
-    data = verif.data.Data(ins, dim_agg_length=h, dim_agg_axis=verif.axis.get(tx), dim_agg_method=verif.aggregator.get(agg))
+    data = verif.data.Data(ins, dim_agg_length=h, dim_agg_axis=verif.axis.get(tx), dim_agg_method=verif.aggregator.get(agg), **mat.data_kwargs(opts))
     menu = [[("obs",), ("fcst",)], [("fcst",)], [("obs",)]]
     if spec["inputs"][0].get("ens") is not None and all(d.get("ens") is not None for d in spec["inputs"]):
         mem = min(d["members"] for d in spec["inputs"])
